@@ -243,11 +243,18 @@ pub struct FnInfo {
     pub mvars: Vec<String>,
     /// type parameters of the function, in order (to map a turbofish onto `assoc_params`)
     pub generic_names: Vec<String>,
+    /// the generic arguments of the impl's self type, as written (`RawDataIterator<'_, R, O>` -> ["'_", "R", "O"])
+    pub impl_args: Vec<String>,
     /// the (virtual) file of the definition
     pub file: String,
     pub ret: Ty,
     /// the body contains a loop (or calls a function that does): leading `fuel : nat` parameter, result in `option`
     pub fuel: bool,
+}
+
+/// the marker type of a `PhantomData<..>` field
+pub fn is_phantom(t: &Ty) -> bool {
+    matches!(t, Ty::Opaque(s) if s == "PhantomData")
 }
 
 impl FnInfo {
@@ -315,6 +322,9 @@ pub struct FileDefs {
     pub types: BTreeSet<String>,
     /// inherent methods: (type identifier, method)
     pub inherent: BTreeSet<(String, String)>,
+    /// `type Name = <ident>;` in the impls of a type: (type identifier, Name) -> the identifier (an integer type or a
+    /// generic parameter); None = several different ones / not a plain identifier
+    pub assoc_types: BTreeMap<(String, String), Option<String>>,
 }
 
 #[derive(Default)]
@@ -400,7 +410,31 @@ impl Tables {
         r
     }
 
+    /// `Self::Name` where the impls of the self type in this file say `type Name = <integer type>;`
+    pub fn assoc_int(&self, cur_file: &str, self_ty: Option<&str>, name: &str) -> Option<IntTy> {
+        match self.assoc_ty(cur_file, self_ty, name) {
+            Some(Ty::Int(Some(t))) => Some(t),
+            _ => None,
+        }
+    }
+
+    /// .. or `type Name = T;` for a generic parameter T that has a `tyvar` mapping
+    pub fn assoc_ty(&self, cur_file: &str, self_ty: Option<&str>, name: &str) -> Option<Ty> {
+        let base = self_ty?.rsplit('.').next().unwrap().split('<').next().unwrap().to_string();
+        match self.file_defs.get(cur_file)?.assoc_types.get(&(base, name.to_string())) {
+            Some(Some(t)) => match IntTy::from_name(t) {
+                Some(i) => Some(Ty::Int(Some(i))),
+                None if self.tyvars.contains_key(t) => Some(Ty::Param(t.clone())),
+                None => None,
+            },
+            _ => None,
+        }
+    }
+
     fn resolve_name0(&self, name: &str, cur_file: &str, self_ty: Option<&str>) -> Option<Ty> {
+        if let Some(a) = name.strip_prefix("Self::") {
+            return self.assoc_ty(cur_file, self_ty, a);
+        }
         if self.adts.contains_key(name) {
             return Some(Ty::Adt(name.to_string()));
         }
